@@ -426,10 +426,12 @@ Record exec_cfg := mkCfg {
   ex_serial_cl : bool                   (* consistency is Serial | LocalSerial *)
 }.
 
-(* the RoutingInfo built by Session::execute; Err = PartitionKeyError, nothing is sent *)
+(* the RoutingInfo built by Session::execute; Err = PartitionKeyError, nothing is sent.
+   [true] = C03's overflow-checks flag: the harness is a debug build; inside C03's quantifier
+   (key_ok) both settings give the same token (C03_token holds for either) *)
 Definition routing_request (st : statement) (cfg : exec_cfg) (values : list PartKey.raw_value)
   : result PartKey.c03_error request :=
-  match PartKey.ps_calculate_token (st_part st) (st_ncols st) (st_wire st) values with
+  match PartKey.ps_calculate_token true (st_part st) (st_ncols st) (st_wire st) values with
   | Err e => Err e
   | Ok tok =>
       Ok {| rq_token := tok;
@@ -518,13 +520,27 @@ Definition accept_conn_shard (p : pool_view) (want sh : N) : bool :=
   | None => true
   end.
 
+(* acceptor of the refiller tie: the pool the model's refiller holds after the observed history of
+   connections becoming ready / being cut is the observed pool (server-side shards, slot by slot) *)
+Definition refill_ok (size : pool_size) (evs : list pool_event) (final : list N) : bool :=
+  list_eqb (map conn_shard (concat (rf_conns (pool_run size evs)))) final &&
+  (* nothing is left in the excess list once the pool is full *)
+  (negb (rf_is_full size (pool_run size evs)) ||
+   match rf_excess (pool_run size evs) with [] => true | _ => false end).
+(* how many ready connections the model's refiller has let go (dropped at once or trimmed) *)
+Definition refill_dropped (size : pool_size) (evs : list pool_event) : nat :=
+  let r := pool_run size evs in
+  let ready := List.length (filter (fun e => match e with EvReady _ _ => true | _ => false end) evs) in
+  let broken := List.length (filter (fun e => match e with EvBroken _ => true | _ => false end) evs) in
+  (ready - broken - List.length (concat (rf_conns r)) - List.length (rf_excess r))%nat.
+
 (* THE PROPERTY for one execution, given where its first frame was seen:
    [obs] = Some (node, server-side shard of the connection) | None = nothing was sent *)
 Definition route_prop (cl : cluster) (cfg : exec_cfg) (st : statement)
            (values : list PartKey.raw_value) (obs : option (N * N)) : Prop :=
   forall k t s,
     st_table st = Some k ->
-    PartKey.ps_calculate_token (st_part st) (st_ncols st) (st_wire st) values = Ok (Some t) ->
+    PartKey.ps_calculate_token true (st_part st) (st_ncols st) (st_wire st) values = Ok (Some t) ->
     pol_token_aware (ex_pol cfg) = true ->
     ks_lookup (c_keyspaces cl) (fst k) = Some s ->
     forall rq, routing_request st cfg values = Ok rq ->
